@@ -29,6 +29,10 @@ CLAIMED = {
    text="Deductive proof per function (K2 guard contracts) of the validation chain for gossip: validateChannelAnn1 returns nil only if four Verify calls returned true, each on the signature field, key field and double-hash digest of THIS announcement that the property names (bitcoin1/2, node1/2); ValidateChannelAnn / ValidateChannelUpdateAnn / VerifyChannelUpdateSignature / verifyChannelUpdate1Signature dispatch to and return the verdict of those checks; validateChannelUpdate1Fields enforces max_htlc != 0, >= min_htlc and <= capacity in msat; in handleChanAnnouncement the graph insertion (AddEdge) and the relay append are dominated by a nil verdict of ValidateChannelAnn for remote messages and of validateFundingTransaction unless AssumeChannelValid/alias; validateFundingTransaction succeeds only if the funding tx was fetched, the script built from this announcement's bitcoin keys matched an output and the UTXO lookup succeeded; in handleChanUpdate, UpdateEdge and the relay are dominated by a non-stale verdict, a nil verdict of ValidateChannelUpdateAnn called with the node key selected by the direction bit of this update from the stored channel; in handleNodeAnnouncement/addNode, AddNode is dominated by non-staleness and ValidateNodeAnn == nil and relay by IsPublicNode; IsStaleEdgePolicy / assertNodeAnnFreshness return 'fresh' only if the stored timestamp of that direction / node is strictly before the new one (and apply the zombie rule first).",
    note="A-ext: Signature.Verify, ParsePubKey, DoubleHashB, DataToSign, the chain backend (FetchFundingTxWrapper, chanvalidate.Validate, GetUtxo) and the graph DB are opaque: the contracts pin which values flow into and out of them, not what they compute. Not decided: real signature semantics, ValidateNodeAnn's body and ChannelAnnouncement2/ChannelUpdate2 paths (only dispatch), orderings across calls (premature-message replay), rate limits, the KV/SQL graph stores.",
    ref="DESIGN.md §4 C20"),
+ "C15": dict(
+   text="Deductive proof per function of the invoice update logic: at every producer of a settle resolution in updateMpp / updateLegacy / resolveReplayedHtlc the full conjunction of the statement holds (invoice open, payment address equal to the invoice's, a non-zero declared total >= invoice value, every accepted HTLC of the set declares that same total (loop step relation), set sum >= total, expiry >= height + both CLTV deltas, not a hold invoice; for replays the stored preimage matches the hash); every accept resolution satisfies the same address / total / CLTV conditions; the invoice and HTLC transition functions (getUpdatedInvoiceState, getUpdatedHtlcState, canCancelSingleHtlc) only move forward (no exit from settled / canceled, a settled HTLC is never canceled, a hold invoice settles only with a preimage hashing to the payment hash); settleHodlInvoice / addHTLCs / cancelInvoice / cancelHTLCs change memory only after the updater accepted the change, with the verdict of those functions, and the recorded amount paid is the sum over exactly the HTLCs that were settled (loop step relations).",
+   note="A-dom: heights in [0, 2^30], CLTV deltas in [0, 2^20], invoice state is one of the four declared values; sums of amounts use Go's uint64 wrap-around explicitly. Opaque: InvoiceUpdater (DB), Preimage.Matches / Hash, bytes.Equal, AMP reconstruction (reconstructAMPPreimages is only required to report no failure), HTLCSet. Not decided: registry-level timing (hold invoice timeouts, concurrent links), that stored invoices satisfy hash = H(preimage), SQL/KV store equivalence, replay determinism beyond the verdict table of resolveReplayedHtlc.",
+   ref="DESIGN.md §4 C15"),
 }
 
 NOT_APPLICABLE = {
